@@ -136,6 +136,15 @@ CHECKS['C18'] = dict(
          'ancestors): the claim is relative to them; segments are tokens, not symbolic characters.',
     design='DESIGN.md section 2 C18')
 
+CHECKS['C19'] = dict(
+    technique='bounded symbolic execution (z3, own executor) over which component options are present (singly and in pairs), backend and values; real flatten -> parse pair',
+    text='Component option tables only: for every backend expressible in the legacy format and each of 44 options (alone and in pairs within a '
+         'section) the real Dosini writer helpers flatten the component, the real parse_component + convert_component_types read it back, and '
+         'both sides are resolved with FlowIRConcrete and compared. Exhaustive within that family.',
+    note='configparser/disk half of the property (Dosini.dump, load_from_directory, variable files, environments, status/output sections) is '
+         'not claimed; str() models what configparser stores.',
+    design='DESIGN.md section 2 C19')
+
 NOT_APPLICABLE = {
     'C07': 'round trip through the real file system, PyYAML (C) and Experiment construction: nothing on the path can be made symbolic; the technique would degenerate to example testing',
     'C15': 'quantifies over processes with different hash seeds / directory listing orders, which are not values inside one symbolic execution',
